@@ -160,11 +160,15 @@ func runPool(c *Case) *Line {
 	}
 	fail := func(err error) {
 		mu.Lock()
+		defer mu.Unlock()
+		if isTimeout(err.Error()) {
+			res.NetErrors++ // the fetch is simply repeated later with another offset
+			return
+		}
 		res.Errors++
 		if res.ErrText == "" {
 			res.ErrText = errText(err)
 		}
-		mu.Unlock()
 	}
 
 	var wg sync.WaitGroup
@@ -304,6 +308,9 @@ func runPool(c *Case) *Line {
 		}(g)
 	}
 	wg.Wait()
+	if res.NetErrors > c.G*c.Decodes/4 {
+		l.Harness = fmt.Sprintf("machine too loaded: %d of %d fetches timed out", res.NetErrors, c.G*c.Decodes)
+	}
 	l.Pool = res
 	return l
 }
